@@ -8,6 +8,7 @@ import (
 	"strings"
 	"time"
 
+	"github.com/orda-io/orda/client/pkg/simhook"
 	"github.com/sirupsen/logrus"
 )
 
@@ -55,6 +56,7 @@ func New() *OrdaLog {
 		logger.SetFormatter(&ordaFormatter{})
 	}
 	logger.SetReportCaller(true)
+	simhook.Logger(logger)
 	return &OrdaLog{logrus.NewEntry(logger)}
 }
 
